@@ -844,6 +844,14 @@ def _read_namespaced_map(ctx: ReaderContext) -> lmap.PersistentMap:
 
     _consume_whitespace(ctx)
 
+    char = ctx.reader.peek()
+    if char == "":
+        raise ctx.eof_error("Unexpected EOF in namespaced map")
+    if char != "{":
+        raise ctx.syntax_error(
+            f"Namespaced map prefix must be followed by a map, not '{char}'"
+        )
+
     return _read_map(ctx, namespace=map_ns)
 
 
